@@ -93,7 +93,7 @@ def check_column_stores(chk, prefix, r, others, lv):
                        f"the array is built by iterating {iters} - an order of its own - but row i "
                        "of the state tensor is the i-th host of the scenario's host list "
                        "(host_num_map): for a scenario whose hosts are not listed in that order "
-                       "the flags land on the wrong hosts", e.ev.loc)
+                       "the flags land on the wrong hosts", e.ev.loc, firm=True)
                 done[e.fam] = True
                 continue
         chk.undecided(f"{prefix}.reset-store", desc, "positional (array) value whose row order "
@@ -149,7 +149,9 @@ def check_reset(ctx, chk, prefix):
         if fam in col_done and not cs:
             continue
         if len(cs) != 1:
-            blind = [e for e in others if e.kind != "column"]
+            # (a "row" effect whose address is an index expression `#(...)`, not a host address)
+            blind = [e for e in others if e.kind == "row"
+                     and cn.show(e.addr).startswith("#(")]
             if not cs and blind:
                 # stores into the state that were not decoded as one host's cell (rows addressed
                 # through an index array, a mask, ...): the status store may be one of them
